@@ -159,7 +159,9 @@ def emit_unit(u, order, exclude=(), helpers=False):
     texts, waiting = {}, {}
     def attempt(name):
         try:
-            if name == "fill_bytes" and not helpers and not hasattr(u, "translate_fn"):
+            if hasattr(u, "translate_fn"):
+                d = u.translate_fn(name)
+            elif name == "fill_bytes" and not helpers:
                 d = translate_fill_bytes(u, u.methods[name])
             elif name == "from_seed":
                 d = translate_fn(u, name)
